@@ -1079,6 +1079,72 @@ def hc_refill(ctx, nseries):
             return
 
 
+def check_hc_refill_table(ctx, hist, spec, lk0, ck0, desc):
+    """(c) on ONE table object and ONE TCR metric object, called again and again, the table edited in place between the calls (a chain
+    column overwritten, finally a row dropped): every call is SciPy's clustering of the distances of the rows the table holds NOW (seeded
+    change C15-r6m3: a metric that remembers the last table it saw)."""
+    import pyrepseq.distance as ds
+    import scipy.cluster.hierarchy as hc
+    from pyrepseq.metric.tcr_metric import BetaCdr3Levenshtein, AlphaCdr3Levenshtein, Cdr3Levenshtein
+    name, weights = spec
+    metric = dict(BetaCdr3Levenshtein=lambda: BetaCdr3Levenshtein(*weights), AlphaCdr3Levenshtein=lambda: AlphaCdr3Levenshtein(*weights),
+                  Cdr3Levenshtein=lambda: Cdr3Levenshtein(*weights))[name]()
+    df = pd.DataFrame({c: list(v) for c, v in hist[0].items()})
+    for r, cols in enumerate(hist):
+        if r:
+            n_now, n_new = len(df), len(next(iter(cols.values())))
+            if n_new < n_now:
+                df.drop(index=df.index[n_new:], inplace=True)
+            for c, v in cols.items():
+                df[c] = list(v)
+        used, w = metric_columns(cols, spec)
+        vec = model_vector(ctx, used, w)
+        got = call_impl(lambda: ds.hierarchical_clustering(df, metric, dict(lk0), dict(ck0)))
+        Zr = hc.linkage(np.array(vec, dtype=np.float64), **lk0)
+        clr = hc.fcluster(Zr, **ck0)
+        ctx.count('hc:same-table-and-metric-edited-in-place')
+        ctx.case(nontrivial_key=('hc-refill-table', str(cols), r))
+        if got[0] != 'ok' or not np.array_equal(np.asarray(got[1][0]), Zr) or not np.array_equal(np.asarray(got[1][1]), clr):
+            ctx.violation('property', '%s: call %d of hierarchical_clustering(table, metric, ..) with the same table and %s%s objects, the table edited in place '
+                          '(now %s; earlier %s), %s, %s: %s differs from SciPy on the distances %s: %s' %
+                          (desc, r + 1, name, tuple(weights), cols, hist[:r], lk0, ck0, jsonable(got[1][1]) if got[0] == 'ok' else got, vec[:10], clr.tolist()),
+                          dict(part='hc-refill-table', history=hist[:r + 1], metric=[name, list(weights)], linkage_kws=lk0, cluster_kws=ck0),
+                          site='distance.hierarchical_clustering')
+            return False
+    return True
+
+
+def hc_refill_table(ctx, nseries):
+    rng = ctx.rng
+    for it in range(nseries):
+        n = rng.randint(4, 8)
+        spec = [('Cdr3Levenshtein', [1, 1, 1]), ('BetaCdr3Levenshtein', [rng.choice([1, 2]) for _ in range(3)]), ('AlphaCdr3Levenshtein', [1, 1, 1])][it % 3]
+        lk, ck = dict(method=rng.choice(['single', 'complete', 'average'])), dict(t=rng.randint(1, 5), criterion='distance')
+        hist = []
+        for r, m in enumerate((n, n, n - 1)):
+            hist.append({'CDR3A': (small_repertoire(rng, m) * m)[:m], 'CDR3B': (small_repertoire(rng, m) * m)[:m]})
+        if not check_hc_refill_table(ctx, hist, spec, lk, ck, 'repeated calls on one table'):
+            return
+
+
+def hc_strings_as_given(ctx):
+    """(c) strings are compared AS GIVEN: letter case, symbols and blanks are characters like any other (seeded change C15-r6m2: a
+    pre-processor that folds case and strips non-alphanumerics inside the metric)."""
+    rng = ctx.rng
+    fam = ['CASSLG', 'casslg', 'CAS*LG', 'CAS_LG', ' CASSLG', 'CASSLG ', 'CaSSLG', 'CAS-LG', 'CASSLG.', 'cAS*Lg']
+    for it in range(4 if ctx.quick else 24):
+        n = rng.randint(4, len(fam))
+        seqs = rng.sample(fam, n)
+        spec = [None, ('WeightedLevenshtein', [rng.choice([1, 2]) for _ in range(3)]), ('Levenshtein', [1, 1, 1]), None][it % 4]
+        lk = dict(method=['single', 'complete', 'average', 'weighted'][it % 4])
+        ck = dict(t=rng.choice([0, 1, 2]), criterion='distance')
+        kind = ['list', 'ndarray', 'series', 'ndarray_U'][it % 4]
+        ctx.count('hc:strings-as-given (case, symbols, blanks)')
+        ctx.case(nontrivial_key=('hc-as-given', tuple(seqs), str(spec), str(lk), str(ck)))
+        if not hc_compare(ctx, {None: seqs}, kind, list(range(n)), spec, lk, ck, 'strings differing by case / symbols / blanks', positional=(it % 2 == 1 and spec is not None)):
+            return
+
+
 def hc_extras(ctx, nrounds):
     """(c) over what the older loop leaves out: further containers, a caller-defined Metric with non-integer / very large distances,
     chain weights, the metric handed over positionally or with the legacy pair tuple, partial option dicts (SciPy's own defaults apply to
@@ -1474,6 +1540,8 @@ def run(ctx):
         return
     hc_extras(ctx, 48 if q else 480)
     hc_refill(ctx, 2 if q else 20)
+    hc_refill_table(ctx, 3 if q else 24)
+    hc_strings_as_given(ctx)
     if len(ctx.violations) > 8:
         return
     sl_extras(ctx, 6 if q else 36)
@@ -1511,6 +1579,8 @@ def replay(ctx, obj):
         check_cc_refill(ctx, [([tuple(t) for t in a], list(l)) for a, l in r['rounds']], 'replay')
     elif part == 'hc-refill':
         check_hc_refill(ctx, r['history'], r['weights'], r['linkage_kws'], r['cluster_kws'], 'replay')
+    elif part == 'hc-refill-table':
+        check_hc_refill_table(ctx, r['history'], (r['metric'][0], r['metric'][1]), r['linkage_kws'], r['cluster_kws'], 'replay')
     elif part == 'community':
         check_community(ctx, r['n'], [tuple(t) for t in r['adj']], r['labels'], r['method'], r.get('kwargs') or {}, 'replay', r.get('seqs'), seed=r.get('seed'),
                         akind=r.get('akind') or 'list', nkind=r.get('nkind') or 'list')
